@@ -32,8 +32,16 @@ HdrRunProp(rec, run) ==
        /\ ~run.ty.err => run.ty.agree
        /\ ~run.pb.err => run.pb.agree
        /\ run.cut = rec.total /\ rec.total > 0 => ~run.pl.err /\ ~run.ty.err /\ ~run.pb.err
-Prop(rec) == \A j \in 1..Len(rec.runs) :
-               IF rec.level = "obj" THEN ObjRunProp(rec, rec.runs[j]) ELSE HdrRunProp(rec, rec.runs[j])
+\* fstree head paths on a stored (possibly compressed) object agree with full decoding (Get)
+FsProp(rec) == /\ ~rec.fs.panic
+               /\ rec.fs.getOK => /\ rec.fs.headOK /\ rec.fs.headEq
+                                   /\ rec.fs.streamOK /\ rec.fs.streamEq
+                                   /\ rec.fs.rhOK /\ rec.fs.rhCovers
+                                   /\ rec.fs.partsOK /\ rec.fs.partsEq
+FsSpec(rec) == rec.fs.getOK => (rec.fs.headOK = ~HeadRead(rec.fields)[1])
+Prop(rec) == IF rec.level = "fs" THEN FsProp(rec)
+             ELSE \A j \in 1..Len(rec.runs) :
+                    IF rec.level = "obj" THEN ObjRunProp(rec, rec.runs[j]) ELSE HdrRunProp(rec, rec.runs[j])
 
 ObjRunSpec(rec, run) ==
   /\ Norm(Tri(run.nb)) = NonPayloadBounds(rec.fields, run.cut)
@@ -45,8 +53,9 @@ HdrRunSpec(rec, run) ==
   /\ Norm(Tri(run.pb)) = ParentBoundsHdr(rec.fields, run.cut)
   /\ LET p == VarintField(rec.fields, run.cut, 5) IN run.pl.err = p[1] /\ (~p[1] => run.pl.v = p[2])
   /\ LET t == VarintField(rec.fields, run.cut, 7) IN run.ty.err = t[1] /\ (~t[1] => run.ty.v = t[2])
-SpecEq(rec) == \A j \in 1..Len(rec.runs) :
-                 IF rec.level = "obj" THEN ObjRunSpec(rec, rec.runs[j]) ELSE HdrRunSpec(rec, rec.runs[j])
+SpecEq(rec) == IF rec.level = "fs" THEN FsSpec(rec)
+               ELSE \A j \in 1..Len(rec.runs) :
+                      IF rec.level = "obj" THEN ObjRunSpec(rec, rec.runs[j]) ELSE HdrRunSpec(rec, rec.runs[j])
 
 TraceInit == l = 1 /\ drift = 0
 TraceNext == /\ l <= Len(Recs) /\ l' = l + 1
